@@ -13,8 +13,8 @@
 (* the end of input clears the state.                                      *)
 (*                                                                         *)
 (* Events (ndjson, file trace.ndjson):                                     *)
-(*   {"ev":"new"} | {"ev":"reset"}                                         *)
-(*   {"ev":"next","tok":T,"ret":B,"d":N,"i":N,"k":B,"e":B}                 *)
+(*   {"ev":"new","t":K} | {"ev":"reset","t":K}          K = tokenizer 1 or 2 *)
+(*   {"ev":"next","t":K,"tok":T,"ret":B,"d":N,"i":N,"k":B,"e":B}           *)
 (*      T in Tokens, "bad" (malformed scalar / stray byte), "eof",         *)
 (*      "none" (the call was made while the error was set)                 *)
 (***************************************************************************)
@@ -22,17 +22,27 @@ EXTENDS JsonTokenizerOps, Json
 
 Trace == ndJsonDeserialize("trace.ndjson")
 
-VARIABLES l,                 \* next event to consume
-          tstk, isKey, err,  \* implementation machine state
-          rep                \* public fields as last reported
+\* Two tokenizers may be alive at once (their calls interleave in the trace): each has its own machine
+\* state; whatever the stack pool hands out, they must not influence each other.
+Toks == {1, 2}
 
-tvars == <<l, tstk, isKey, err, rep>>
+VARIABLES l,                 \* next event to consume
+          st                 \* tokenizer -> [tstk, isKey, err, rep]
+
+tvars == <<l, st>>
 
 Zero == [d |-> 0, i |-> 0, k |-> FALSE]
+FreshState == [tstk |-> <<>>, isKey |-> FALSE, err |-> FALSE, rep |-> Zero]
 
-TraceInit == l = 1 /\ tstk = <<>> /\ isKey = FALSE /\ err = FALSE /\ rep = Zero
+TraceInit == l = 1 /\ st = [t \in Toks |-> FreshState]
 
-Fresh == /\ tstk' = <<>> /\ isKey' = FALSE /\ err' = FALSE /\ rep' = Zero
+T == Trace[l].t
+tstk == st[T].tstk
+isKey == st[T].isKey
+err == st[T].err
+rep == st[T].rep
+Set(new) == st' = [st EXCEPT ![T] = new]
+Fresh == Set(FreshState)
 
 Logged(ev) == [d |-> ev.d, i |-> ev.i, k |-> ev.k]
 
@@ -45,7 +55,7 @@ TraceSticky ==
   /\ l <= Len(Trace) /\ Trace[l].ev = "next" /\ err
   /\ Trace[l].tok = "none" /\ Trace[l].ret = FALSE /\ Trace[l].e = TRUE
   /\ Logged(Trace[l]) = rep
-  /\ UNCHANGED <<tstk, isKey, err, rep>> /\ l' = l + 1
+  /\ UNCHANGED st /\ l' = l + 1
 
 \* end of input: Next returns false, no error, and the tokenizer is back in its initial state
 TraceEOF ==
@@ -60,16 +70,14 @@ TraceToken ==
          r  == TNext(tstk, isKey, ev.tok) IN
        /\ ev.ret = r.ret /\ ev.e = r.e
        /\ ev.d = r.depth /\ ev.i = r.index /\ ev.k = r.iskey
-       /\ tstk' = r.s /\ isKey' = r.k /\ err' = r.e
-       /\ rep' = Logged(ev)
+       /\ Set([tstk |-> r.s, isKey |-> r.k, err |-> r.e, rep |-> Logged(ev)])
   /\ l' = l + 1
 
 TraceNext == TraceReset \/ TraceSticky \/ TraceEOF \/ TraceToken
 TraceSpec == TraceInit /\ [][TraceNext]_tvars
 
 \* invariants of the implementation machine, evaluated at every step of every real execution
-StackShape == \A j \in 1..Len(tstk) : tstk[j].typ \in {"A","O"} /\ tstk[j].len >= 1
-ErrorFreezes == err => rep = rep   \* (stickiness itself is enforced by TraceSticky)
+StackShape == \A t \in Toks : \A j \in 1..Len(st[t].tstk) : st[t].tstk[j].typ \in {"A","O"} /\ st[t].tstk[j].len >= 1
 
 \* acceptance: the whole trace was consumed.  On rejection the position of the first
 \* event that no action explains is printed.
